@@ -549,8 +549,10 @@ class Project:
                 else:
                     # By elimination, len(matches) == 0
                     raise KeyError(id)
-            elif not self._contains_job_id(id):
-                # id does not exist in the project data space
+            elif not JOB_ID_REGEX.fullmatch(id) or not self._contains_job_id(id):
+                # id is not a job id at all (but possibly the name of some other
+                # path within the workspace) or does not exist in the project
+                # data space
                 raise KeyError(id)
             return Job(project=self, id_=id, directory_known=True)
 
